@@ -672,6 +672,12 @@ func TestSim(t *testing.T) {
 							kk, ww := k, where
 							runOne(cfg, "grid", func(s *Sim) { s.gridRun(kk, ww) })
 							stats["grid_runs"]++
+							if n < 0 && k == 0 {
+								// no answer ever, retries for ever, a context that cannot be cancelled: the call goes on until Close
+								cfg.CtxBackground = []bool{true}
+								runOne(cfg, "grid", func(s *Sim) { s.gridRun(0, 0) })
+								stats["grid_runs"]++
+							}
 						}
 					}
 				}
@@ -713,6 +719,18 @@ func TestSim(t *testing.T) {
 						})
 						stats["history_runs"]++
 					}
+				}
+			}
+			// the calls built on SendAndRead are as prompt as SendAndRead: no answers arrive; contexts end, the client is closed, time passes
+			for hk := 1; hk <= 3; hk++ {
+				for rep := 0; rep < 4; rep++ {
+					cfg := Cfg{T: 1 + rep%3, Tries: 1 + rep%3, BufCap: 5, V4: v4, Timed: true, Urgent: true, Mode: "highlevel", Xid: [][]int{{7}, {7, 8}, {7, 8, 7}, {8}}[rep], High: hk}
+					if rep == 3 {
+						cfg.CtxDeadline = []int{2}
+					}
+					wc, wx := rep%2 == 0, rep != 1
+					runOne(cfg, "highlevel", func(s *Sim) { s.randomRun(0, true, wc, wx) })
+					stats["highlevel_runs"]++
 				}
 			}
 			for _, kind := range []string{"good", "rej"} {
